@@ -459,6 +459,16 @@ def run(ctx) -> None:
                                     dup_guard_before = False
         ok7 = self_ok or dedup_elsewhere or dup_guard_before
         rep.add("C19.R7", f"{voc_f.qname}:self-pair-rejected#{n_pairs}", ok7, f"{voc_f.module.rel}:{lp.lineno}", "a node listed twice for one name is rejected" if ok7 else "a node that declares the same output name twice pairs with itself and passes as 'ordered' (has_path(n, n) holds trivially): node(output_name=('a', 'a')) is accepted, the graph reports outputs ('a',) and the first returned value is silently lost")
+    # each shared name is judged on its own evidence: nothing the ordered-test receives is carried from the iteration
+    # for one name to the next (e.g. an ordering graph built once, stripped for the first name's contested values — the
+    # data edges carrying a later name's own contested value then survive and pass for an ordering path)
+    for lpi, lp in enumerate([n for n in walk_local(voc_f.node) if isinstance(n, ast.For) and isinstance(n.iter, ast.Call) and isinstance(n.iter.func, ast.Attribute) and n.iter.func.attr == "items" and any(isinstance(x, ast.For) and isinstance(x.target, ast.Tuple) for x in ast.walk(n) if x is not n)]):
+        inside = {t.id for x in ast.walk(lp) if isinstance(x, (ast.Assign, ast.AnnAssign, ast.AugAssign)) for t in (x.targets if isinstance(x, ast.Assign) else [x.target]) if isinstance(t, ast.Name)}
+        before = {t.id for x in walk_local(voc_f.node) if isinstance(x, (ast.Assign, ast.AnnAssign)) and not contains(lp, x) and x.lineno < lp.lineno for t in (x.targets if isinstance(x, ast.Assign) else [x.target]) if isinstance(t, ast.Name)}
+        carried = sorted(inside & before)
+        used = {a_.id for c in ast.walk(lp) if isinstance(c, ast.Call) and call_names(db, c, voc_f) & {"_is_pair_ordered", "_is_pair_mutex"} for a_ in c.args if isinstance(a_, ast.Name)}
+        bad_c = [v_ for v_ in carried if v_ in used]
+        rep.add("C19.R7", f"{voc_f.qname}:no-state-carried-between-names#{lpi}", not bad_c, f"{voc_f.module.rel}:{lp.lineno}", "the pair tests use per-name values and loop-invariant inputs only" if not bad_c else f"{bad_c} is set before the per-name loop and re-bound inside it, and feeds the pair test: what was computed for one shared name is reused for the next — an unordered pair of producers is accepted when an ordered pair of another name precedes it")
     if n_pairs < 2:
         raise AnalysisError("pair loops of validate_output_conflicts not found")
 
